@@ -150,6 +150,44 @@ fn enum_small(shard: usize, nshards: usize, _tier: Tier, emit: &mut dyn FnMut(&[
     }
 }
 
+/// A buffer of 2^32 + 64 bytes (zero pages, mapped lazily): reads whose window ends at or beyond byte 2^32.
+fn big_buffer() -> &'static [u8] {
+    static B: std::sync::OnceLock<Vec<u8>> = std::sync::OnceLock::new();
+    B.get_or_init(|| {
+        let mut v = vec![0u8; (1usize << 32) + 64];
+        let base = (1usize << 32) - 32;
+        for i in 0..96 {
+            v[base + i] = (i as u8).wrapping_mul(7).wrapping_add(3);
+        }
+        v
+    })
+}
+
+/// plain encoding: [spec, kind, delta] with offset = 2^32 - 16 + delta
+fn oracle_big(case: &[u8], obs: &mut Obs) -> Result<(), String> {
+    if case.len() < 3 {
+        return Ok(());
+    }
+    let off = (1usize << 32) - 16 + case[2] as usize;
+    check(case[0] % 5, (case[1] % 6) as usize, big_buffer(), off, obs)
+}
+
+fn enum_big(shard: usize, _n: usize, _t: Tier, emit: &mut dyn FnMut(&[u8]) -> bool) {
+    // one shard only: the buffer is shared
+    if shard != 0 {
+        return;
+    }
+    for spec in 0..5u8 {
+        for kind in 0..6u8 {
+            for delta in 0..90u8 {
+                if !emit(&[spec, kind, delta]) {
+                    return;
+                }
+            }
+        }
+    }
+}
+
 /// Random sub-domain (choice sequence): all widths, offsets incl. the neighbourhood of usize::MAX.
 fn oracle_random(case: &[u8], obs: &mut Obs) -> Result<(), String> {
     let mut c = Choice::new(case);
@@ -191,7 +229,7 @@ pub fn property() -> Property {
         level: "exploration",
         rule: "cases are (byte-order spec in {LE,BE,Any::Little,Any::Big,Native}, width in {u8,u16,u32,u64,i32,i64}, buffer, offset); oracle = shift-and-add reference, offset'=offset+w on success, Err and offset untouched on failure. small: exhaustive enumeration for u8/u16 (every byte value / byte pair at every position and every failing offset of buffers of length 0..4). random: proptest choice sequences for all widths with boundary/sign patterns and offsets incl. usize::MAX-16..=usize::MAX. Non-trivial: a successful read at a non-zero offset of a value with pairwise distinct bytes, or a failing read at a non-zero offset; distinct by case hash.",
         assumptions: &["64-bit little-endian host: NativeEndian is compared with cfg!(target_endian) of this build only"],
-        subs: vec![Sub::enumerated("small", oracle_small, enum_small, true), Sub::new("random", oracle_random, 96, 3_000_000, 40_000_000)],
+        subs: vec![Sub::enumerated("small", oracle_small, enum_small, true), Sub::new("random", oracle_random, 96, 3_000_000, 40_000_000), Sub::enumerated("beyond_4gib", oracle_big, enum_big, false)],
         extras: vec![],
     }
 }
